@@ -1191,8 +1191,23 @@ func (env *SpecEnv) call(e *Expr) (SpecVal, error) {
 		if err != nil {
 			return SpecVal{}, err
 		}
+		if _, isBV := a.T.Sort.IsBV(); isBV {
+			ty := a.Ty
+			if ty == nil {
+				ty = b.Ty
+			}
+			le := "bvule"
+			if ty != nil && isSignedTy(ty) {
+				le = "bvsle"
+			}
+			c := App(SBool, le, a.T, b.T)
+			if name == "min" {
+				return SpecVal{T: Ite(c, a.T, b.T), Ty: ty}, nil
+			}
+			return SpecVal{T: Ite(c, b.T, a.T), Ty: ty}, nil
+		}
 		if a.T.Sort != SInt {
-			return SpecVal{}, fmt.Errorf("min/max only on mathematical integers")
+			return SpecVal{}, fmt.Errorf("min/max only on integers")
 		}
 		if name == "min" {
 			return SpecVal{T: Ite(Le(a.T, b.T), a.T, b.T)}, nil
